@@ -313,6 +313,19 @@ def runMeasure (case : Json) : E Json := do
     | _, _ => throw s!"unknown class {klass}"
   pure (Json.arr (out.map fun x => jRat (floatToRat x)).toArray)
 
+def getVersion (j : Json) : E Version := do
+  let rel ← getList (fun x => x.getNat?) (← field j "release")
+  let pre ← getOpt (fun x => do
+    match ← getList (fun y => y.getNat?) x with
+    | [k, n] => pure (k, n)
+    | _ => throw "pre = [kind, n]") (fieldD j "pre")
+  pure { release := rel, pre := pre }
+
+def runVersion (case : Json) : E Json := do
+  let cur ← getVersion (← field case "current")
+  let docs ← getList getVersion (← field case "required")
+  pure (Json.arr (docs.map fun d => Json.bool (versionRefused cur d)).toArray)
+
 def runCaseAll (case : Json) : E Json := do
   let kind ← (← field case "kind").getStr?
   let fo := if getBoolD case "exact" false then FloatOps.exact else FloatOps.ieee
@@ -320,6 +333,7 @@ def runCaseAll (case : Json) : E Json := do
   | "histn" => runHistN fo case
   | "config" => runConfig case
   | "measure" => runMeasure case
+  | "version" => runVersion case
   | _ => runCase case
 
 def handleLineAll (line : String) : String :=
